@@ -177,6 +177,10 @@ func indepVerify(h *types.BlockHeader) (triState, error) {
 		if err != nil {
 			return no, nil
 		}
+		// strict DER framing (the btcec parser tolerates trailing bytes): 0x30 <len> must span the whole string
+		if len(h.Sign) < 8 || h.Sign[0] != 0x30 || int(h.Sign[1]) != len(h.Sign)-2 {
+			return no, nil
+		}
 		sig, err := ecdsa.ParseDERSignature(h.Sign)
 		if err != nil {
 			return no, nil
